@@ -443,3 +443,41 @@ def structured_fc(rng, ns):
             fc[i, j] = b
             kinds[t] = kinds.get(t, 0) + 1
     return fc, kinds
+
+
+# --------------------------------------------------------------------------
+# lattice Fourier sum, vectorised over q (thousands of q-points, ~100 atoms)
+# --------------------------------------------------------------------------
+
+def fourier_dynmat_many(lat, frac, numbers, masses, kfun, cutoff, qpts):
+    """Same specification as `fourier_dynmat` (infinite-crystal lattice sum, no supercell), organised for many
+    q-points: neighbours of each atom are found with one array operation, then one vector operation per bond."""
+    n = len(frac)
+    qpts = np.atleast_2d(np.asarray(qpts, dtype=float))
+    m = images_needed(lat, cutoff) + 1
+    rng_l = np.arange(-m, m + 1)
+    L = np.array(np.meshgrid(rng_l, rng_l, rng_l, indexing="ij")).reshape(3, -1).T.astype(float)
+    out = np.zeros((len(qpts), 3 * n, 3 * n), dtype=complex)
+    frac = np.asarray(frac, dtype=float)
+    for i in range(n):
+        df = (frac[None, :, :] - frac[i][None, None, :]) + L[:, None, :]  # (nL, n, 3)
+        r = df @ lat
+        r2 = np.sum(r * r, axis=2)
+        sel = np.nonzero((r2 >= 1e-10) & (r2 <= cutoff ** 2 * (1 + 1e-12)))
+        onsite = np.zeros((3, 3))
+        for li, j in zip(*sel):
+            a, b = kfun(int(numbers[i]), int(numbers[j]), float(r2[li, j]))
+            phi = -(a * np.eye(3) + b * np.outer(r[li, j], r[li, j]))
+            onsite -= phi
+            ph = np.exp(2j * np.pi * (qpts @ df[li, j]))
+            out[:, 3 * i:3 * i + 3, 3 * j:3 * j + 3] += ph[:, None, None] * (phi / math.sqrt(masses[i] * masses[j]))[None]
+        out[:, 3 * i:3 * i + 3, 3 * i:3 * i + 3] += onsite[None] / masses[i]
+    return out
+
+
+def primes_between(lo, hi):
+    out = []
+    for k in range(lo, hi + 1):
+        if k > 1 and all(k % d for d in range(2, int(k ** 0.5) + 1)):
+            out.append(k)
+    return out
